@@ -28,8 +28,10 @@ verus! {
 //%include spec/sem.rs
 //%include spec/lemmas_tables.rs
 //%include prelude/vecspecs.rs
+//%include spec/lemmas_sems.rs
 
 //%include spec/matrix.rs
+//%include spec/matrix_sem.rs
 //%include prelude/mxspecs.rs
 
 //%item optimiser.rs matrix pub fn matrix
